@@ -23,6 +23,14 @@ NEEDS = {
  "C18-a": ("C18", "check_stop compares the last token with the primary EOS only: a secondary EOS accepted in an accepting, extensible state does not stop the engine; needs a multi-EOS vocabulary", ["C18"]),
  "C19-a": ("C19", "force_bytes: 'break' instead of \"break 'spec\" when two different singleton token ids are seen: with an odd number >= 3 of single-token alternatives one is forced; needs a canonical tokenizer", ["C19", "C13"]),
  "C20-a": ("C20", "nested %lark { } inside a [stop=...] attribute inherits nesting_level instead of +1: ~200 levels overflow the stack and abort the process", ["C20"]),
+ "C01-b": ("C01", "TokenizerSlice::from_topo_node builds trie_without_child[i] from the running accumulator (minus children 0..=i): with the default slices the mask omits pure-blank tokens containing \\t \\n \\r whenever the lexeme subsumes the JSON string-character slice but not the whitespace slice (/[^\\r]*/, line comments, text next to /\\t+/)", ["C01", "C10"]),
+ "C06-b": ("C06", "intersect_pattern_properties returns the left operand's patternProperties unchanged when the right operand has none: patterns of the earlier allOf / $ref branch are not intersected with the later branch's additionalProperties (false or typed), so {\"x1\":5} is admitted", ["C06"]),
+ "C07-b": ("C07", "NumberSchema::get_maximum always reports the upper bound as exclusive when maximum and exclusiveMaximum are both present with maximum < exclusiveMaximum: the instance equal to maximum is refused (side by side or via $ref/anyOf + sibling)", ["C07", "C08"]),
+ "C12-b": ("C12", "ParserState::rollback returns early when n_bytes == 0: rolling back exactly an EOS token committed while a greedy lexeme was pending does not undo the lexeme flush of scan_eos(); the mask no longer extends the lexeme", ["C12", "C11"]),
+ "C14-b": ("C14", "Parser::with_shared drops the mutex guard right after taking the shared lexer out of its slot: a sibling clone entering any call between take and put-back finds None (panic / poisoned mutex); needs two shallow clones overlapping on different threads with a switch at the unlock", ["C14"]),
+ "C16-b": ("C16", "SimpleVob::clear_excessive_bits works word-wise and skips the word at size/32 when size % 32 == 0: a set with spare capacity (alloc_token_set: vocab+1 bits) shows ids vocab..vocab+31 after set_all(true) / negated() when the vocabulary size is a multiple of 32", ["C16"]),
+ "C18-b": ("C18", "StopController::commit_token_u8 no longer resets the stop-regex state at a special token: a half-matched stop string survives a special token and completes after it, cutting text that contains no stop", ["C18"]),
+ "C20-b": ("C20", "TokenParser::rollback skips parser.rollback when bytes_to_drop == 0: rolling back exactly an EOS committed with a greedy lexeme open leaves the flushed lexer-stack entry; a later commit + EOS panics (lexer_stack/bytes mismatch) and the matcher latches an internal error", ["C20", "C12", "C11"]),
 }
 ids = sys.argv[1:] or sorted(NEEDS)
 for sid in ids:
